@@ -245,6 +245,11 @@ def flush_functions(ctx: Ctx, attr: str = "set_messages") -> list[FuncInfo]:
     out = []
     for f in ctx.prog.all_functions():
         if not any(is_send(n) for n in ctx.own_nodes(f) if isinstance(n, ast.stmt)):
+            # the loop body (send + forget) may be a private helper coroutine: judge the function with it written out
+            if _reads_direct(ctx, f, attr) and any(isinstance(n, (ast.For, ast.AsyncFor)) for n in ctx.own_nodes(f)):
+                fi = ctx.inl(f)
+                if fi is not f and any(is_send(n) for n in ctx.own_nodes(fi) if isinstance(n, ast.stmt)):
+                    out.append(fi)
             continue
         if _reads_direct(ctx, f, attr) or helper_calls(ctx, f, "reads", attr):
             out.append(f)
@@ -440,7 +445,7 @@ def none_propagation(ctx: Ctx, chk, rule: str) -> None:
     from ..interp import Const, Frame, UNKNOWN
 
     I = ctx.I
-    send = ctx.func("aiomysensors.gateway.Gateway.send")
+    send = ctx.inl(ctx.func("aiomysensors.gateway.Gateway.send"))  # the dispatch step may be a private helper coroutine
     for V in ctx.versions:
         fr = Frame(I.make_callee(send, send.cls), V).bind("message_buffer", frozenset([Const(False)]))
         from . import tables
